@@ -1070,6 +1070,10 @@ pub fn int_width(typ: u8) -> Option<usize> {
 }
 
 pub fn encode_param_value(out: &mut Vec<u8>, p: &Param) {
+    if p.typ == T_NULL {
+        // a parameter bound as MYSQL_TYPE_NULL has no value bytes, whatever its NULL-bitmap bit says
+        return;
+    }
     match p.value.as_ref() {
         None => {}
         Some(PVal::Int(v)) => {
